@@ -497,7 +497,8 @@ Additional Inputs:
     """
     def rnorm(x, *argz, **kwdz):
         error = 0.0
-        constrained = constraint(x, *argz, **kwdz)
+        from copy import copy #NOTE: the constraint may change x in-place
+        constrained = constraint(copy(x), *argz, **kwdz)
         for i in range(len(x)):
             error += (constrained[i] - x[i])**2  #XXX: better rnorm ?
         error = error**0.5
